@@ -979,7 +979,7 @@ func (m *evalModel) regionBlocks(name string) []*ssa.BasicBlock {
 	for _, h := range m.helpers {
 		for _, f := range append([]*ssa.Function{h}, allAnon(h)...) {
 			for _, b := range f.Blocks {
-				if m.regionOf(b) == name {
+				if m.regionSet(b)[name] {
 					out = append(out, b)
 				}
 			}
@@ -999,4 +999,55 @@ func (m *evalModel) formSplitter(fn *ssa.Function) bool {
 		return false
 	}
 	return !m.evalRelevant(fn, map[*ssa.Function]bool{})
+}
+
+// regionSet: the special-form regions a block belongs to: one for a block of EVAL, the regions of all its call
+// sites for a block of an evaluation helper (a helper shared by def and defmacro belongs to both).
+func (m *evalModel) regionSet(b *ssa.BasicBlock) map[string]bool {
+	out := map[string]bool{}
+	if m.helperSites != nil && m.helperOf(b.Parent()) != nil {
+		for _, lb := range m.liftBlock(b, 0) {
+			if lb.Parent() != m.EVAL {
+				out[""] = true
+				continue
+			}
+			out[m.regionOf(lb)] = true
+		}
+		return out
+	}
+	out[m.regionOf(b)] = true
+	return out
+}
+
+// valuesIn: the values v stands for in the given special-form region: a parameter of an evaluation helper is
+// replaced by the arguments at those call sites of the helper that lie in the region (recursively); local
+// cells, phis and struct fields are looked through.
+func (m *evalModel) valuesIn(v ssa.Value, region string, depth int) []ssa.Value {
+	var out []ssa.Value
+	for _, lf := range m.e.producers(v, map[ssa.Value]bool{}, 0) {
+		p, ok := lf.(*ssa.Parameter)
+		if !ok || depth > 4 {
+			out = append(out, lf)
+			continue
+		}
+		h := p.Parent()
+		sites, isHelper := m.helperSites[h]
+		if !isHelper {
+			out = append(out, lf)
+			continue
+		}
+		idx := -1
+		for i, q := range h.Params {
+			if q == p {
+				idx = i
+			}
+		}
+		for _, site := range sites {
+			if idx < 0 || idx >= len(site.Common().Args) || !m.regionSet(site.Block())[region] {
+				continue
+			}
+			out = append(out, m.valuesIn(site.Common().Args[idx], region, depth+1)...)
+		}
+	}
+	return out
 }
